@@ -383,6 +383,39 @@ func genArtifact(t *core.Tape, family string, noEmptyDense bool) *artifact {
 			a.obj = v.Slice(lo, hi)
 			a.view = fmt.Sprintf(".Slice(%d,%d)", lo, hi)
 		}
+	case "long":
+		// one text line longer than a reader's buffer (bufio: 4096 bytes, a
+		// bufio.Scanner token: 65536): many elements, values not printed
+		a.sparse = t.Bool(1, 3)
+		n := t.Pick([]int{3, 3, 1}) // index into the sizes below
+		n = []int{600, 2500, 40000}[n]
+		vals := values(t, e, n)
+		if a.sparse {
+			for i := range vals {
+				if i%3 != 0 {
+					vals[i] = 0
+				}
+			}
+		}
+		sum := 0.0
+		for i, x := range vals {
+			if !math.IsNaN(x) && !math.IsInf(x, 0) {
+				sum += float64(i%7+1) * math.Mod(x, 1024)
+			}
+		}
+		if t.Bool(1, 2) {
+			v := newVector(e, a.sparse, vals)
+			a.class = map[bool]string{true: "SparseVector", false: "DenseVector"}[a.sparse]
+			a.desc = fmt.Sprintf("%s %s vector of %d drawn elements (weighted checksum %g)", storageName(a.sparse), e.name, n, sum)
+			a.obj, a.proto = v, v
+		} else {
+			r := t.Range(1, 3)
+			c := n / r
+			m := newMatrix(e, a.sparse, r, c, vals[:r*c])
+			a.class = map[bool]string{true: "SparseMatrix", false: "DenseMatrix"}[a.sparse]
+			a.desc = fmt.Sprintf("%s %s matrix %dx%d of drawn elements (weighted checksum %g)", storageName(a.sparse), e.name, r, c, sum)
+			a.obj, a.proto = m, m
+		}
 	case "matrix":
 		a.sparse = t.Bool(1, 2)
 		r, c := t.Range(0, 4), t.Range(0, 4)
